@@ -527,6 +527,12 @@ class Fxp():
             val, _, raw, signed, n_word, n_frac = self._format_inupt_val(val, return_sizes=True, raw=raw)
             val = np.array([val])
 
+            # sizes are estimated with 64 bits arithmetic whatever the (narrower) dtype of the input is
+            if val.dtype.kind == 'f' and val.dtype.itemsize < 8:
+                val = val.astype(np.float64)
+            elif val.dtype.kind in 'iu' and val.dtype.itemsize < 8:
+                val = val.astype(np.int64)
+
             # check if val is complex, if it is: convert to array of float/int
             if np.iscomplexobj(val) or isinstance(val.item(0), complex):
                 val_real = np.vectorize(lambda v: v.real)(val)
